@@ -239,3 +239,77 @@ def passed_instances(ex, st):
     from pyvc.core import unS as _unS, Spec as _S
     call0 = _unS(Q.At(ev.t, 0))
     return Sym("seq", _unS(Q.At(call0, 0)), _S("seq", _S("obj", "ConfigOption")))
+
+
+# ---------------------------------------------------------------------------
+# look-up: configured instances first, the built-in default last, NotFound -> default
+
+
+
+def _default_instance(c):
+    c.param("value", "val")
+    c.returns("obj:ConfigOption")
+    c.ensures("same(result.value, value) and len(result.applicable_to) == 0 and not result.from_command_line and result.priority == 0")
+    c.assume("option(default_value): dataclass-generated ConfigOption.__init__ with applicable_to=(), from_command_line=False, priority=0")
+
+
+def _gvfi(k):
+    k.param("instances", "seq[obj:ConfigOption]"); k.param("module_path", "tuple[str]"); k.returns("val"); k.raises("NotFound")
+
+
+@contract("pyanalyze.options.Options._get_value_for_no_default", props=["C18", "C11"])
+def _(c):
+    c.param("option", "val")
+    c.returns("val")
+    c.raises("NotFound")
+    c.fieldspec("options", "dict[str,seq[obj:ConfigOption]]")
+    c.fieldspec("module_path", "tuple[str]")
+    c.callee("option", _default_instance)
+    c.callee("option.get_value_from_instances", _gvfi)
+    c.record_calls += ["option.get_value_from_instances"]
+    A = "call_args('option.get_value_from_instances', 0)"
+    CAND = "lookup_candidates()"
+    IN = "(option.name in self.options)"
+    C = "self.options[option.name]"
+    c.ensures(f"implies({IN}, len({CAND}) == len({C}) + 1)", name="configured_instances_then_one_default")
+    c.ensures(f"implies({IN}, all(same({CAND}[j], {C}[j]) for j in range(len({C}))))", name="configured_instances_come_first_in_their_order")
+    c.ensures(f"implies(not {IN}, len({CAND}) == 1)", name="only_the_default_when_nothing_is_configured")
+    c.ensures(f"same({CAND}[len({CAND}) - 1].value, option.default_value) and len({CAND}[len({CAND}) - 1].applicable_to) == 0", name="the_default_is_the_last_candidate_and_applies_everywhere")
+    c.ensures(f"seq_eq({A}[1], self.module_path)", name="looked_up_for_this_module")
+    c.ensures("same(result, call_result('option.get_value_from_instances', 0))", name="returns_the_lookup_result")
+
+
+def _gvnd(k):
+    k.param("option", "val"); k.returns("val"); k.raises("NotFound")
+
+
+@contract("pyanalyze.options.Options.get_value_for", props=["C18"])
+def _(c):
+    c.param("option", "val")
+    c.returns("val")
+    c.callee("self._get_value_for_no_default", _gvnd)
+    c.record_calls += ["self._get_value_for_no_default"]
+    c.ensures("len(appended('self._get_value_for_no_default')) == 1 and same(call_args('self._get_value_for_no_default', 0)[0], option)", name="looks_up_the_requested_option")
+    c.ensures("same(result, call_result('self._get_value_for_no_default', 0)) or same(result, option.default_value)", name="lookup_result_or_default")
+
+
+@contract("pyanalyze.options.Options.is_error_code_enabled", props=["C18", "C11"])
+def _(c):
+    c.param("code", "val")
+    c.returns("val")
+    c.callee("self._get_value_for_no_default", _gvnd)
+    c.record_calls += ["self._get_value_for_no_default"]
+    c.requires("code.name in ConfigOption.registry", name="module_invariant.error_codes_registered")
+    c.ensures("len(appended('self._get_value_for_no_default')) == 1 and same(call_args('self._get_value_for_no_default', 0)[0], ConfigOption.registry[code.name])",
+              name="looks_up_the_option_registered_under_the_codes_name")
+    c.ensures("same(result, call_result('self._get_value_for_no_default', 0)) or same(result, ConfigOption.registry[code.name].default_value)", name="lookup_result_or_default")
+
+
+@spec_function()
+def lookup_candidates(ex, st):
+    """first positional argument of the recorded call option.get_value_from_instances(instances, module_path)"""
+    g = st.notes.get("ghost_appends") or {}
+    ev = g.get("option.get_value_from_instances")
+    from pyvc.core import unS as _unS, Spec as _S
+    call0 = _unS(Q.At(ev.t, 0))
+    return Sym("seq", _unS(Q.At(call0, 0)), _S("seq", _S("obj", "ConfigOption")))
